@@ -38,7 +38,7 @@ LEVEL_NOTE = (
 TECHNIQUE = "deterministic simulation: stateful operation histories (incl. failed operations and restore) against an executable reference model; in-run interception"
 DESIGN_REF = "DESIGN.md 4.6, 7.3"
 BUDGET = {
-    "quick": {"plans": 2400, "wall": 70, "chunk": 16},
+    "quick": {"plans": 25000, "wall": 90, "chunk": 16},
     "thorough": {"plans": 200000, "wall": 900, "chunk": 32},
 }
 RULE = (
